@@ -4,7 +4,9 @@ Proof: Props/C05.v over Model/Fs.v (every trace accepted by `write_protocol`, ev
 crash relations, every reader interleaving; redis: dump is one SET).
 
 Tie (trace validation): the primitive file-system traces of REAL jug.backends.file_store operations
-(dump of pickled values 0 B - MBs, raw .npy and compress_numpy arrays, re-dump, dump of a packed key,
+(dump of pickled values 0 B - MBs, raw .npy and compress_numpy arrays - numeric, string, datetime dtypes
+written with tofile(), and object / structured-with-object dtypes whose .npy body is a pickle written through
+Python's buffered writer -, re-dump, dump of a packed key,
 remove, remove_many, update_pack, resave_pack, cleanup, re-opened stores) are recorded by the os-level
 interposer (harness/c05_fsx.py), rendered as `list fsop` and coqc evaluates
   * `write_protocol fin complete trace = true`  (fin = every name outside tempfiles/ and locks/;
@@ -85,19 +87,63 @@ def mkvalue(spec):
         if order == 'F':
             a = np.asfortranarray(a)
         return a
+    if t == 'oarr':
+        # object dtype: np.lib.format.write_array pickles the array into the (buffered) file object
+        seed, shape, blob, order = spec[1], tuple(spec[2]), spec[3], spec[4]
+        n = 1
+        for d in shape:
+            n *= d
+        a = np.empty(n, dtype=object)
+        for i, x in enumerate(_objects(random.Random(seed), n, blob)):
+            a[i] = x
+        a = a.reshape(shape)
+        if order == 'F':
+            a = np.asfortranarray(a)
+        return a
+    if t == 'sarr':
+        # structured dtype with an object field: pickled like an object array
+        seed, n, blob = spec[1], spec[2], spec[3]
+        a = np.zeros(n, dtype=[('o', 'O'), ('i', '<i4'), ('f', '<f8')])
+        for i, x in enumerate(_objects(random.Random(seed), n, blob)):
+            a['o'][i] = x
+            a['i'][i] = i - 2
+            a['f'][i] = i / 4.0
+        return a
     raise ValueError(spec)
+
+
+def _objects(r, n, blob):
+    out = []
+    for _ in range(n):
+        c = r.randrange(7)
+        out.append([r.randrange(-9, 10 ** 6), r.randrange(1000) / 8.0, 'k%d' % r.randrange(100), None, (r.randrange(5), 'x'),
+                    [r.randrange(3)] * r.randrange(4), r.randbytes(blob)][c])
+    return out
+
+
+def deep_same(x, y):
+    if type(x) != type(y):
+        return False
+    if isinstance(x, (list, tuple)):
+        return len(x) == len(y) and all(deep_same(p, q) for p, q in zip(x, y))
+    return x == y
 
 
 def same(a, b):
     if isinstance(a, np.ndarray) or isinstance(b, np.ndarray):
-        return (isinstance(a, np.ndarray) and isinstance(b, np.ndarray) and a.dtype == b.dtype
-                and a.shape == b.shape and a.tobytes() == b.tobytes())
+        if not (isinstance(a, np.ndarray) and isinstance(b, np.ndarray) and type(a) == type(b) and a.dtype == b.dtype
+                and a.shape == b.shape):
+            return False
+        if a.dtype.hasobject:             # the buffer holds pointers: compare the elements
+            return deep_same(a.tolist(), b.tolist())
+        return a.tobytes() == b.tobytes()
     return type(a) == type(b) and a == b
 
 
 def describe(v):
     if isinstance(v, np.ndarray):
-        return 'ndarray(%s,%s,sha1=%s)' % (v.dtype, list(v.shape), hashlib.sha1(v.tobytes()).hexdigest()[:10])
+        body = repr(v.tolist()).encode('utf-8', 'replace') if v.dtype.hasobject else v.tobytes()
+        return 'ndarray(%s,%s,sha1=%s)' % (v.dtype, list(v.shape), hashlib.sha1(body).hexdigest()[:10])
     r = repr(v)
     if len(r) > 60:
         return '%s(len(repr)=%d,sha1=%s)' % (type(v).__name__, len(r), hashlib.sha1(r.encode()).hexdigest()[:10])
@@ -106,13 +152,14 @@ def describe(v):
 
 def decode_strict(b):
     """(ok, value): b is, byte for byte, the encoding of exactly one value - independent of jug's decoder:
-    empty = None; raw .npy; or one complete zlib stream holding 'P'+one pickle or 'N'+one .npy, nothing after."""
+    empty = None; raw .npy; or one complete zlib stream holding 'P'+one pickle or 'N'+one .npy, nothing after.
+    (.npy of an object dtype = header + one pickle: allow_pickle, and the pickle must end where the bytes end.)"""
     if b == b'':
         return True, None
     try:
         if b[:6] == b'\x93NUMPY':
             f = io.BytesIO(b)
-            a = np.lib.format.read_array(f, allow_pickle=False)
+            a = np.lib.format.read_array(f, allow_pickle=True)
             return f.tell() == len(b), a
         d = zlib.decompressobj()
         raw = d.decompress(b)
@@ -122,7 +169,7 @@ def decode_strict(b):
         if raw[:1] == b'P':
             v = pickle.Unpickler(f).load()
         elif raw[:1] == b'N':
-            v = np.load(f, allow_pickle=False)
+            v = np.load(f, allow_pickle=True)
         else:
             return False, None
         return f.tell() == len(raw) - 1, v
@@ -175,7 +222,14 @@ def gen_valspec(rng, big):
         return ['nested', rng.randrange(10 ** 6), rng.choice([0, 3, 40, 900])]
     if r < 0.64 and big:
         return ['bytes', rng.randrange(10 ** 6), rng.choice([1 << 20, 3 << 20])]
-    dtype = rng.choice(['float64', 'int32', 'uint8', 'bool', 'float32', 'int64', 'complex128'])
+    if r < 0.76:
+        # .npy bodies that are a pickle (object dtype / structured with an object field); with blob = 3000 the
+        # image exceeds the 8 KB buffer of the file object, otherwise all of it is still buffered after write_array
+        if rng.random() < 0.25:
+            return ['sarr', rng.randrange(10 ** 6), rng.choice([0, 1, 4, 12]), rng.choice([5, 5, 3000])]
+        return ['oarr', rng.randrange(10 ** 6), rng.choice([[0], [1], [6], [40], [3, 4], [2, 0], []]), rng.choice([5, 5, 5, 3000]),
+                rng.choice(['C', 'C', 'F'])]
+    dtype = rng.choice(['float64', 'int32', 'uint8', 'bool', 'float32', 'int64', 'complex128', 'U4', 'S3', 'M8[s]', '>i2'])
     shape = rng.choice([[0], [1], [7], [60], [4, 5], [3, 0, 2], [200, 10], [9, 9, 9], []])
     if big and rng.random() < 0.15:
         shape = [512, 600]
@@ -266,7 +320,21 @@ def fixed_scenarios(thorough):
                   {'op': 'update_pack'},
                   {'op': 'cleanup', 'active': [K(60, 'cd'), K(63)]},
                   {'op': 'update_pack'}]}
-    return [s1, s2, s3, s4]
+    pk = [['oarr', 1, [0], 5, 'C'], ['oarr', 2, [1], 5, 'C'], ['oarr', 3, [7], 5, 'C'], ['oarr', 4, [3, 4], 5, 'F'],
+          ['oarr', 5, [], 5, 'C'], ['oarr', 6, [12], 3000, 'C'], ['sarr', 7, 5, 5], ['sarr', 8, 9, 3000],
+          ['arr', 'U4', [6], 9, 'C'], ['arr', 'M8[s]', [3, 2], 10, 'C']]
+    s5 = {'name': 'numpy raw, pickled body', 'compress': False,
+          'ops': [{'op': 'dump', 'key': K(70 + i, 'ef' if i % 3 == 0 else None), 'val': v} for i, v in enumerate(pk)]
+                 + [{'op': 'dump', 'key': K(72), 'val': ['oarr', 11, [5], 5, 'C']},
+                    {'op': 'update_pack'},
+                    {'op': 'dump', 'key': K(71), 'val': ['oarr', 12, [2, 2], 5, 'C']},
+                    {'op': 'reopen', 'compress': True},
+                    {'op': 'dump', 'key': K(73, 'ef'), 'val': ['oarr', 13, [9], 3000, 'C']},
+                    {'op': 'dump', 'key': K(80), 'val': ['sarr', 14, 3, 5]},
+                    {'op': 'remove_many', 'keys': [K(70, 'ef'), K(75)]},
+                    {'op': 'reopen', 'compress': False},
+                    {'op': 'dump', 'key': K(80), 'val': ['oarr', 15, [4], 5, 'C']}]}
+    return [s1, s2, s3, s4, s5]
 
 
 def scenario_keys(scn):
@@ -1204,7 +1272,7 @@ def run(ck):
         for si, scn in enumerate(scns):
             root = os.path.join(top, 's%d' % si)
             os.makedirs(root)
-            stride = 1 if (thorough or si < 4 or si % 2 == 0) else 3
+            stride = 1 if (thorough or si < 5 or si % 2 == 0) else 3
             rec = record(scn, root, reader_stride=stride)
             sr = scenario_for_replay(scn)
             ck.count('scenarios')
@@ -1233,6 +1301,8 @@ def run(ck):
                     v = o.post[o.op['key']]
                     kind = ('raw npy' if isinstance(v, np.ndarray) and not scn_compress_at(scn, o.index) else
                             'compressed npy' if isinstance(v, np.ndarray) else 'pickle')
+                    if isinstance(v, np.ndarray) and v.dtype.hasobject:
+                        kind += ' (object dtype: body pickled through the buffered file object)'
                     ck.count('dump:%s' % kind)
                     if o.op['key'] in o.pre:
                         ck.count('dump:re-dump of an existing key')
